@@ -54,8 +54,29 @@ def num(x):
     return None
 
 
+def build_rare(md, spec):
+    """>= 24 copies of one protein frame (tiny per-frame jitter) in which a few hydrogen bonds exist in only 1-2 frames:
+    in every other frame the bonded hydrogen is reflected through its donor, which breaks the bond.  Anything that
+    prefilters or aggregates over the frames of a call (frequency thresholds, candidate lists) sees these as rare events."""
+    base = md.load(spec["path"])[spec["frame"]]
+    bonds = md.wernet_nilsson(base, periodic=False)[0]
+    rng = np.random.RandomState(spec["seed"])
+    F = spec["n_frames"]
+    pick = bonds[rng.choice(len(bonds), size=min(4, len(bonds)), replace=False)] if len(bonds) else np.zeros((0, 3), dtype=int)
+    event_frames = sorted(rng.choice(np.arange(2, F - 2), size=spec.get("n_event_frames", 2), replace=False).tolist())
+    xyz = np.repeat(base.xyz, F, axis=0).astype(np.float64)
+    for f in range(F):
+        if f not in event_frames:
+            for d, hh, a in pick:
+                xyz[f, hh] = 2 * xyz[f, d] - xyz[f, hh]
+    xyz += rng.normal(0, 2e-4, size=xyz.shape)
+    return md.Trajectory(xyz.astype(np.float32), base.topology)
+
+
 def build(md, spec):
-    if spec["kind"] == "file":
+    if spec["kind"] == "rare":
+        t = build_rare(md, spec)
+    elif spec["kind"] == "file":
         t = md.load(spec["path"])
         t = t[spec["frames"]]
     else:
@@ -215,6 +236,59 @@ def _union(rows_list):
     return np.array(s, dtype=np.int64).reshape(-1, 3)
 
 
+def prime(md, t, spec):
+    """Call history: run the same functions with OTHER arguments in this process - another atom count, other
+    coordinates, another cell that shares the first components of the box matrix, more sphere points, other cutoffs,
+    another protein - so that anything cached between calls (static tables, 'same box as last time' shortcuts) is left
+    in a state that does not belong to the trajectory under test.  Results are discarded."""
+    n = t.n_atoms
+    keep = np.arange(0, max(8, (2 * n) // 3))
+    other = t.atom_slice(keep)
+    other.xyz = (other.xyz * 1.07 + 0.13).astype(np.float32)
+    if t.unitcell_vectors is not None:
+        V = t.unitcell_vectors.astype(np.float64).copy()
+        V[:, 1, 1] *= 1.21
+        V[:, 2, 2] *= 0.83
+        V[:, 2, 1] += 0.37
+        V[:, 2, 0] -= 0.29
+        other.unitcell_vectors = V.astype(np.float32)        # same a vector and b_x, everything else different
+        same_atoms = t.slice(slice(None), copy=True)
+        same_atoms.unitcell_vectors = V.astype(np.float32)
+    else:
+        same_atoms = None
+    done = 0
+    for tr in [other, same_atoms]:
+        if tr is None:
+            continue
+        for name, g in analyses(md, tr).items():
+            if name in AGGREGATE or (spec.get("only") is not None and name not in spec["only"] and not name.startswith("sasa")):
+                continue
+            try:
+                g(tr.slice(slice(None), copy=True))
+                done += 1
+            except Exception:
+                pass
+    for nsp in (96, 7):
+        try:
+            md.shrake_rupley(other[:1], n_sphere_points=nsp, probe_radius=0.2, mode="residue")
+            md.shrake_rupley(t[:1], n_sphere_points=nsp)
+        except Exception:
+            pass
+    try:
+        q = np.arange(0, other.n_atoms, 5)
+        md.compute_neighbors(other, 0.7, q, periodic=other.unitcell_vectors is not None)
+        md.compute_neighborlist(other, 0.7, frame=0, periodic=other.unitcell_vectors is not None)
+    except Exception:
+        pass
+    if spec.get("prime_protein"):
+        try:
+            p = md.load(spec["prime_protein"])[:1]
+            md.compute_dssp(p); md.kabsch_sander(p); md.wernet_nilsson(p, periodic=False); md.baker_hubbard(p, periodic=False)
+        except Exception:
+            pass
+    return done
+
+
 def main():
     payload = json.load(sys.stdin)
     import mdtraj as md
@@ -264,6 +338,36 @@ def main():
             except Exception as e:  # an analysis that refuses is reported, not fatal
                 rec = {"err": "%s: %s" % (type(e).__name__, str(e)[:200])}
             res[name] = rec
+        # ---- short sub-selection: the frames of t[a:b] computed as a trajectory of their own
+        if spec.get("sub"):
+            a0 = F // 4
+            b0 = min(F, a0 + max(2, F // 3))
+            ts = t[a0:b0]
+            for name, rec in res.items():
+                if "company" not in rec:
+                    continue
+                g = funcs[name]
+                f = lambda tr, g=g: g(tr.slice(slice(None), copy=True))
+                try:
+                    if name in AGGREGATE:
+                        rec["sub_ok"] = h(_union(f(ts))) == h(_union([f(t[i])[0] for i in range(a0, b0)]))
+                    else:
+                        rec["sub_ok"] = [h(x) for x in f(ts)] == rec["company"][a0:b0]
+                except Exception as e:
+                    rec["sub_ok"] = False
+        # ---- call history: same analyses again after the process has served other calls of the same functions
+        if payload.get("history"):
+            prime(md, t, spec)
+            for name, rec in res.items():
+                if "company" not in rec:
+                    continue
+                g = funcs[name]
+                f = lambda tr, g=g: g(tr.slice(slice(None), copy=True))
+                try:
+                    again = [h(_union(f(t)))] * F if name in AGGREGATE else [h(x) for x in f(t)]
+                    rec["history_equal"] = again == rec["company"]
+                except Exception as e:
+                    rec["history_equal"] = False
         out[spec["id"]] = res
     print(json.dumps({"results": out}))
 
